@@ -21,6 +21,7 @@ def register(PROPS):
             D('c19_bitint', ['mode=alpha3'], label='alpha3'),
             D('c19_bitint', ['mode=subsets', 'minsize=0', 'maxsize=4'], label='subsets-small', tiers=('quick',)),
             D('c19_bitint', ['mode=subsets', 'minsize=11', 'maxsize=16'], label='subsets-large', tiers=('quick',)),
+            D('c19_bitint', ['mode=subsets', 'alph=neg', 'minsize=11', 'maxsize=16'], ['mode=subsets', 'alph=neg'], label='subsets-negative-end'),
             D('c19_bitint', ['mode=subsets'], label='subsets-all', tiers=('thorough',)),
             D('c19_bitint', ['mode=triples'], label='triples', tiers=('thorough',)),
             D('c19_bitint', ['mode=pairs'], label='pairs-asan', variant='asan', shards=4),
